@@ -59,6 +59,9 @@ type SimCfg struct {
 	MaxSteps int            `json:"max_steps,omitempty"`
 	Latency  LatencyCfg     `json:"latency"`
 	Quantum  int64          `json:"now_quantum,omitempty"`
+	// preemption injection (simrt.Config.PreemptEvery / PreemptNs)
+	PreemptEvery int   `json:"preempt_every,omitempty"`
+	PreemptNs    int64 `json:"preempt_ns,omitempty"`
 }
 
 // LatencyCfg is the per-run disk latency model (ns).
@@ -68,6 +71,8 @@ type LatencyCfg struct {
 	PerByte int64  `json:"per_byte,omitempty"`
 	StallOp int    `json:"stall_op,omitempty"` // 1-based index of the op that stalls, 0 none
 	StallNs int64  `json:"stall_ns,omitempty"`
+	// StallEvery > 0: a pseudo-random one in StallEvery operations stalls for StallNs
+	StallEvery int `json:"stall_every,omitempty"`
 }
 
 // Plan is the explicit, shrinkable description of one run (minus the tape).
@@ -185,6 +190,11 @@ func genSim(r *simrt.Rand) SimCfg {
 		s.Strategy = simrt.Strategy{Kind: "rr", Quantum: 1 + r.Intn(8)}
 	default:
 		s.Strategy = simrt.Strategy{Kind: "sticky", Stick: 0.8}
+	}
+	if r.Chance(0.6) {
+		// a goroutine can be descheduled for a long time at any point
+		s.PreemptEvery = 40 + r.Intn(400)
+		s.PreemptNs = int64(200+r.Intn(30000)) * 1000
 	}
 	return s
 }
